@@ -126,7 +126,7 @@ def categories_st(draw, min_valid=1, max_valid=5, max_missing=2, flavour="cat",
             {"id": -1, "name": "No Data", "missing": True, "value": None},
         ]
     total = nv + nm
-    ids = draw(st.lists(st.integers(1, 14), min_size=total, max_size=total, unique=True))
+    ids = draw(st.lists(st.integers(0, 14), min_size=total, max_size=total, unique=True))
     miss_pos = set(
         draw(st.lists(st.integers(0, total - 1), min_size=nm, max_size=nm, unique=True))
         if nm else []
